@@ -237,8 +237,10 @@ pub struct WorldSpec {
     pub extreme: bool,
 }
 
-const RATES: [&str; 18] = [
+const RATES: [&str; 21] = [
     "0.01", "0", "0.001", "0.025", "0.05", "0.125", "0.3333", "0.5", "1", "0.0001", "0.15", "1.5", "0.005", "0.333", "0.0100", "1.0", "00.02", ".05",
+    // more than 18 decimals, the last ones not zero
+    "0.00000000000000000124", "0.0100000000000000000049", "0.000000000000000000005",
 ];
 
 fn rate_from(w: u32, w2: u32, tie_seeking: bool) -> String {
@@ -296,6 +298,20 @@ pub fn build_world(w: &[u32; WORLD_WORDS], p: &Profile) -> WorldSpec {
                 } else {
                     convertibles[0] = quotes[0].clone();
                 }
+            }
+        }
+    }
+    // denomination names are case sensitive; some markets use capitals
+    let base = if gate(w[5].rotate_left(11), 120) { "Base".to_string() } else { base };
+    if gate(w[5].rotate_left(13), 120) {
+        for q in quotes.iter_mut() {
+            *q = q.replacen('q', "Q", 1);
+        }
+    }
+    if gate(w[5].rotate_left(17), 120) {
+        for c in convertibles.iter_mut() {
+            if c.starts_with("conv") {
+                *c = c.replacen('c', "C", 1);
             }
         }
     }
@@ -466,6 +482,8 @@ pub struct Interp<'a> {
     pub next_ask: u64,
     pub next_bid: u64,
 }
+
+pub const NIL_UUID: &str = "00000000-0000-0000-0000-000000000000";
 
 fn uuid_of(n: u64) -> String {
     // hex letters in every id, so that an upper-case spelling is a different string
@@ -773,6 +791,10 @@ impl<'a> Interp<'a> {
                 id = t;
             }
         }
+        // the nil UUID is a canonical hyphenated UUID like any other
+        if gate(w[10].rotate_left(7), 30) && !book.asks.contains_key(NIL_UUID) {
+            id = NIL_UUID.to_string();
+        }
         let mut funds = self.escrow(&base, size);
         for fw in fault_words(faulty, fw, w[11]) {
             match pick(fw, 20) {
@@ -857,6 +879,9 @@ impl<'a> Interp<'a> {
             if let Some(t) = twin_of_legacy(book.bids.keys(), |k| book.bids.contains_key(k)) {
                 id = t;
             }
+        }
+        if gate(w[11].rotate_left(7), 30) && !book.bids.contains_key(NIL_UUID) {
+            id = NIL_UUID.to_string();
         }
         let total = match parse(&price) {
             Parsed::Num(p) => p.mul_u128(size).as_u128().unwrap_or(0),
@@ -1161,7 +1186,7 @@ impl<'a> Interp<'a> {
         let mut sender = if cfg.approvers.is_empty() { POOL[0].to_string() } else { cfg.approvers[pick(w[7], cfg.approvers.len())].clone() };
         let mut funds = self.escrow(&base, size);
         for fw in fault_words(faulty, fw, w[11]) {
-            match pick(fw, 12) {
+            match pick(fw, 13) {
                 0..=2 => sender = other_roles(book, cfg, &cfg.approvers, w[9]),
                 3 => {
                     size += 1;
@@ -1192,6 +1217,12 @@ impl<'a> Interp<'a> {
                     }
                 }
                 10 => id = mangle_id(&id, pick(w[9], 6)),
+                11 if cfg.base.len() > 1 => {
+                    // a base string that is only part of the base denomination's name, escrowed
+                    // in that coin
+                    base = cfg.base[..cfg.base.len() - 1].to_string();
+                    funds = self.escrow(&base, size);
+                }
                 _ => funds = if funds.is_empty() { vec![(base.clone(), size.max(1))] } else { vec![] },
             }
         }
